@@ -1,0 +1,29 @@
+//go:build verif
+
+// Contracts for the deductive verifier under /verif (govc). Comment-only file: it adds no code and is
+// compiled only with the build tag "verif".
+
+package internal
+
+// ---- mock AST nodes for the items of an `or` rule (C10): built from copies, the schema's own AST is left alone --------
+// The OpenAPI converter turns every item of an `or` rule into an AST node of its own and then rewrites that node's rules
+// (a format type becomes {type: "string", format: ...}). The node must own its rule map: the AST handed out by GetAST()
+// and a second conversion of the same schema see the rule as written.
+
+//@ func stringRuleToASTNodeType
+//@   property C10
+//@   requires wfRules(a.Rules)
+//@   may_panic
+//@   modifies *a.Rules, a.Rules.$pos, elems(a.Rules.order), mapof(a.Rules.data)
+//@   ensures result.Rules == a.Rules && wfRules(a.Rules)
+
+//@ func objectRuleToASTNode
+//@   property C10
+//@   requires wfRules(r.Properties) && len(r.Properties.order) <= 1000000000
+//@   may_panic
+//@   ensures result.Rules != nil && fresh(result.Rules)
+
+//@ func stringRuleToASTNode
+//@   property C10
+//@   may_panic
+//@   ensures result.Rules != nil && fresh(result.Rules)
